@@ -318,6 +318,18 @@ var c01Skeletons = []struct {
 		}
 		return rI(e.b)
 	}},
+	{"t ? a : a / (b - b)", func(e c01Env) rv { // the branch that is not taken is not evaluated
+		if e.t {
+			return rI(e.a)
+		}
+		return rv{kind: rErr}
+	}},
+	{"t ? nope : a", func(e c01Env) rv {
+		if e.t {
+			return rv{kind: rErr}
+		}
+		return rI(e.a)
+	}},
 	{"t ? a : u ? b : c", func(e c01Env) rv {
 		if e.t {
 			return rI(e.a)
@@ -367,6 +379,18 @@ var c01Skeletons = []struct {
 	{"a++ + b", func(e c01Env) rv { return rI(e.a + 1 + e.b) }},
 	{"a-- * b", func(e c01Env) rv { return rI((e.a - 1) * e.b) }},
 	{"-a++", func(e c01Env) rv { return rI(-(e.a + 1)) }},
+	{"t ? a : a / (b - b)", func(e c01Env) rv { // the branch that is not taken is not evaluated
+		if e.t {
+			return rI(e.a)
+		}
+		return rv{kind: rErr}
+	}},
+	{"t ? nope : a", func(e c01Env) rv {
+		if e.t {
+			return rv{kind: rErr}
+		}
+		return rI(e.a)
+	}},
 	{"t ? a : u ? b : c", func(e c01Env) rv {
 		if e.t {
 			return rI(e.a)
@@ -545,6 +569,7 @@ func HarnessC01Float() {
 		}{
 			{"-f", 0, "-0.0"}, {"f * -1.5", 0, "-0.0"}, {"f + f", 0, "0.0"}, {"0.0 / f", -4, "-0.0"}, {"f + 0.5", 1.5, "2.0"},
 			{"f - 5.5", 2.5, "-3.0"}, {"f / 2.0", 0.5, "0.25"}, {"f * 2.0", -0.75, "-1.5"}, {"-f + -f", 0, "-0.0"}, {"f", 1e15, "1000000000000000.0"},
+			{"1.0 / f", 0, "+Inf"}, {"-1.0 / f", 0, "-Inf"}, {"f / f", 0, "NaN"}, {"f * f", 1e200, "+Inf"},
 		}
 		c := cases[vChoice("case", len(cases))]
 		out, err := EvaluateString("{{ "+c.src+" }}", map[string]any{"f": c.f})
